@@ -237,8 +237,6 @@ def leaf_weights(d):
     geom = axis_geom(d)
     if p == INF:
         return given if given is not None else [Fraction(1)] * size
-    if wt is not None and wt[0] == 'c' and float(wt[1]) == 1.0:
-        return given            # explicitly unweighted: plain sum
     out = []
     for pos, idx in enumerate(itertools.product(*[range(n) for n in shape])):
         v = Fraction(1) if given is None else given[pos]
@@ -551,7 +549,8 @@ def discr_zoo(ctx):
                         wt = None if wk == 'def' else (('c', 1.0) if wk == 'one' else
                                                        mk_wt(rng, wk, (n,)))
                         out.append(('U', [(a, b, n, l, r)], dt, 'C', wt, p))
-    # cell volume exactly 1 with nodes on the boundary (the constant-1 shortcut)
+    # cell volume exactly 1 with nodes on the boundary (fixed finding C02-F1: the constant 1.0
+    # used to be taken for 'unweighted' and the boundary fractions were dropped)
     for n, l, r in [(5, 1, 1), (3, 1, 0), (4, 0, 1)]:
         length = (n - 1) if (l and r) else (2 * n - 1) / 2.0
         out.append(('U', [(0.0, float(length), n, l, r)], 'float64', 'C', None, 2))
